@@ -165,6 +165,7 @@ package io
 //@   ensures [delimiter_consumed_or_error] dec.reader != nil ==> dec.Error != nil || ghost.rstream[ival(dec.reader)][lp0 + len(data)] == delim
 //@   ensures [memory_position] dec.reader == nil ==> dec.head == old(dec.head) + len(data) + 1 || (dec.Error != nil && dec.head == dec.tail)
 //@   ensures [unsafe_result_is_a_view_of_the_window] !safe ==> arr(data) == arr(dec.buf) && len(data) <= len(dec.buf)
+//@   ensures [unsafe_result_is_the_window_just_consumed] !safe && data != nil ==> arr(data) == arr(dec.buf) && off(data) + len(data) + 1 == off(dec.buf) + dec.head
 //@   ensures [safe_result_is_private] safe && data != nil ==> isnew(arr(data))
 
 //@ func (*Decoder).UnsafeUntil
@@ -344,19 +345,23 @@ package io
 //@   loop 1 invariant [bufid] arr(dec.buf) == old(arr(dec.buf)) || isnew(arr(dec.buf))
 //@   loop 1 invariant [stream_consumed_is_returned] dec.reader != nil ==> len(data) == ghost.rpos[ival(dec.reader)] - dec.tail + dec.head - lp0
 //@   loop 1 invariant [memory_consumed_is_returned] dec.reader == nil ==> len(data) == 0 && dec.head == old(dec.head)
+//@   loop 1 invariant [data_is_the_stream] dec.reader != nil ==> forall(j, off(data), off(data) + len(data), mem(data, j) == ghost.rstream[ival(dec.reader)][lp0 - off(data) + j])
 //@   loop 2 invariant [scan] 0 <= off && off <= length + 3 && utf16Length >= 0 && len(buf) == length
 //@   loop 2 invariant [sticky] old(dec.Error) != nil ==> dec.Error != nil
 //@   loop 3 invariant [shape] 0 <= need && need <= 3 && utf16Length >= 0 && 0 <= dec.tail && dec.tail <= len(dec.buf) && safe && data != nil && isnew(arr(data)) && arr(data) != arr(dec.buf)
 //@   loop 3 invariant [room] dec.reader != nil ==> (dec.buf == nil || len(dec.buf) > 0) && ghost.rpos[ival(dec.reader)] >= 0
 //@   loop 3 invariant [stream_consumed_is_returned] dec.reader != nil ==> len(data) == ghost.rpos[ival(dec.reader)] - lp0
+//@   loop 3 invariant [data_is_the_stream] dec.reader != nil ==> forall(j, off(data), off(data) + len(data), mem(data, j) == ghost.rstream[ival(dec.reader)][lp0 - off(data) + j])
 //@   loop 3 invariant [memory] dec.reader == nil ==> same(dec.buf, old(dec.buf)) && dec.tail == old(dec.tail)
 //@   loop 3 invariant [memory_bytes] dec.reader == nil ==> forall(j, mem(dec.buf, j) == old(mem(dec.buf, j)))
 //@   loop 3 invariant [sticky] old(dec.Error) != nil ==> dec.Error != nil
 //@   loop 3 invariant [bufid] arr(dec.buf) == old(arr(dec.buf)) || isnew(arr(dec.buf))
 //@   ensures [negative_length_is_an_error] utf16Length < 0 ==> dec.Error != nil
 //@   ensures [stream_consumes_exactly_the_bytes_returned] dec.reader != nil && dec.Error == nil ==> ghost.rpos[ival(dec.reader)] - dec.tail + dec.head == lp0 + len(data)
+//@   ensures [stream_content] dec.reader != nil ==> forall(j, off(data), off(data) + len(data), mem(data, j) == ghost.rstream[ival(dec.reader)][lp0 - off(data) + j])
 //@   ensures [memory_consumes_exactly_the_bytes_returned] dec.reader == nil && dec.Error == nil ==> dec.head == old(dec.head) + len(data)
 //@   ensures [unsafe_result_is_a_view_of_the_window] !safe && data != nil ==> arr(data) == arr(dec.buf) && len(data) <= len(dec.buf)
+//@   ensures [unsafe_result_is_the_window_just_consumed] !safe && data != nil ==> arr(data) == arr(dec.buf) && off(data) + len(data) == off(dec.buf) + dec.head
 //@   ensures [safe_result_is_private] safe && data != nil ==> isnew(arr(data))
 
 // ---- element counts, reference tables (C04, C02) ---------------------------------------------
